@@ -84,10 +84,12 @@ def systematic_collisions():
             yield f"collide-{n}-in-{d or 'root'}", [(d, genlib.Xml("protocol", [], None, None, [e]))], [n]
 
 
-def run(ctx: Ctx, systematic=False):
+def run(ctx: Ctx, systematic=False, only_tree=None):
     rng = ctx.rng
     here = os.path.dirname(os.path.abspath(__file__))
     trees = []
+    if only_tree is not None:
+        return _run_trees(ctx, [only_tree], here, all_firsts=True)
     if systematic or ctx.tier == "thorough":
         trees += list(systematic_collisions())
     cat = specgen.catalogue_specs()
@@ -98,6 +100,11 @@ def run(ctx: Ctx, systematic=False):
         trees.append((f"collide-{i}-{'-'.join(names)}", files, names))
     for i in range(2 if not (ctx.tier == "thorough") else 20):
         trees.append((f"random-{i}", specgen.random_spec(rng, size=3), []))
+    return _run_trees(ctx, trees, here)
+
+
+def _run_trees(ctx: Ctx, trees, here, all_firsts=False):
+    rng = ctx.rng
     n_cmp = n_tree = 0
     opaque_report = {}
     for tag, files, colliders in trees:
@@ -118,7 +125,7 @@ def run(ctx: Ctx, systematic=False):
             firsts = ["-", "eolib.protocol.net.client", "eolib.data.eo_reader", "eolib.packet", "eolib.protocol"]
             if gen_mods:
                 firsts.append(rng.choice(gen_mods))
-            if not (ctx.tier == "thorough"):
+            if not (ctx.tier == "thorough") and not all_firsts:
                 firsts = ["-"] + rng.sample(firsts[1:], 2)
             types_ = genprops.declared_types(case.files)
             for first in firsts:
@@ -204,7 +211,22 @@ def run(ctx: Ctx, systematic=False):
     ctx.sample({"documented_paths": DOC_PACKAGES})
 
 
-replay = genprops.replay_generic
+
+
+def replay(ctx: Ctx, doc: dict) -> int:
+    """the recorded tree through the same comparison and oracle, with every choice of first import"""
+    import random
+    files = gencheck.files_from_doc(doc)
+    ctx.replaying = True
+    ctx.replay_hits = []
+    ctx.deferred = []
+    ctx.rng = random.Random(int(doc.get("seed", 0) or 0))
+    run(ctx, only_tree=(doc.get("tag", "replay"), files, []))
+    for d in ctx.deferred:
+        print(f"  reproduced: {d[0]}: {d[1][:400]}")
+    if not (ctx.replay_hits or ctx.deferred):
+        print("  not reproduced on this tree")
+    return 1 if (ctx.replay_hits or ctx.deferred) else 0
 
 
 def oracle_sweep(ctx):
